@@ -351,23 +351,19 @@ func (i *intersectsCap) EstimateLength() int {
 }
 
 func CapIntersectsPolygon(c s2.Cap, p *s2.Polygon) bool {
-	inside := 0
 	for i := 0; i < p.NumLoops(); i++ {
 		loop := p.Loop(i)
-		onLeft := true
 		for j := 0; j < loop.NumEdges(); j++ {
 			edge := loop.Edge(j)
 			point := s2.Project(c.Center(), edge.V0, edge.V1)
 			if c.ContainsPoint(point) {
 				return true
 			}
-			onLeft = onLeft && s2.Sign(c.Center(), edge.V0, edge.V1)
-		}
-		if onLeft {
-			inside++
 		}
 	}
-	return inside%2 == 1
+	// The boundary doesn't come within reach of the cap, so the cap is either
+	// entirely inside the polygon or entirely outside it.
+	return p.ContainsPoint(c.Center())
 }
 
 type IntersectsFeature struct {
